@@ -65,7 +65,8 @@ impl Processor {
 impl NodeProcessor for Processor {
     fn process_expression(&mut self, expression: &mut Expression) {
         if let Expression::If(if_expression) = expression {
-            let else_result = if_expression.iter_branches().fold(
+            // the branches are folded from the LAST one: the first `elseif` must be tested first
+            let else_result = if_expression.iter_branches().collect::<Vec<_>>().into_iter().rev().fold(
                 if_expression.get_else_result().clone(),
                 |else_result, branch| {
                     self.convert_if_branch(
